@@ -62,7 +62,11 @@ def run(ctx) -> None:
     boxes = [("default", None), ("regular", list(BOX)), ("tuple", BOX), ("point", [5.0, 5.0, 5.0, 5.0]),
              ("line", [-10.0, 0.0, 10.0, 0.0]), ("globe", [-180, -90, 180, 90]), ("int", [0, 0, 10, 10]),
              ("dateline-east", [170.0, -10.0, 180.0, 10.0]), ("dateline-west", [-180.0, -10.0, -170.0, 10.0]),
-             ("polar", [-20.0, 80.0, 20.0, 90.0])]
+             ("polar", [-20.0, 80.0, 20.0, 90.0]),
+             # edges are compared as the numbers given: an east edge beyond 180 admits no negative longitude, and a box whose
+             # west edge lies east of its east edge (or south edge north of its north edge) contains no position at all
+             ("east-beyond-180", [170.0, -10.0, 190.0, 10.0]), ("0-360", [0.0, -90.0, 360.0, 90.0]), ("wide", [-20.0, -90.0, 200.0, 90.0]),
+             ("inverted-x", [170.0, -10.0, -170.0, 10.0]), ("inverted-y", [-80.0, 60.0, -70.0, 40.0]), ("inverted-xy", [30.0, 40.5, -20.0, 10.0])]
 
     def hops(lon, lat):
         return [models.geodist(lat[k - 1], lon[k - 1], lat[k], lon[k]) for k in range(1, len(lon))
